@@ -49,7 +49,7 @@ func (p *pend) chanNames() string {
 	return strings.Join(s, "|")
 }
 
-func chanPtr[T any](c chan T) uintptr   { return uintptr(*(*unsafe.Pointer)(unsafe.Pointer(&c))) }
+func chanPtr[T any](c chan T) uintptr    { return uintptr(*(*unsafe.Pointer)(unsafe.Pointer(&c))) }
 func rchanPtr[T any](c <-chan T) uintptr { return uintptr(*(*unsafe.Pointer)(unsafe.Pointer(&c))) }
 func schanPtr[T any](c chan<- T) uintptr { return uintptr(*(*unsafe.Pointer)(unsafe.Pointer(&c))) }
 
